@@ -208,7 +208,9 @@ def api_case(rec, ci, li, tkind, suffix, mask, method, layout, chunk, seed, prec
         # one 1-D profile (without the extra dimension of the data) serves both columns
         profs = (profs[0], profs[0])
     phi = np.array([[1.0, 2.0, 4.0], [10.0 + seed % 2, -20.0, 40.0]])
-    da = xr.DataArray(phi.astype(np.float32) if prec == "mixed" else phi, dims=["x", "zc"], name="temp")
+    # the result is named input name + suffix, also when the input name already ends in that suffix (a chained transform)
+    in_name = "temp" if (ci + li + (1 if mask else 0)) % 4 else "temp" + ("_transformed" if suffix is None else suffix)
+    da = xr.DataArray(phi.astype(np.float32) if prec == "mixed" else phi, dims=["x", "zc"], name=in_name)
     thv = np.array(profs, dtype=float)
     lvv = np.array(levels, dtype=float)
     if method == "log":
@@ -256,7 +258,7 @@ def api_case(rec, ci, li, tkind, suffix, mask, method, layout, chunk, seed, prec
     if set(v.dims) != {"x", newdim}:
         rec.violation("api", "new-dimension-name", case, ["x", newdim], list(v.dims))
         return
-    want_name = "temp" + ("_transformed" if suffix is None else suffix)
+    want_name = in_name + ("_transformed" if suffix is None else suffix)
     if v.name != want_name:
         rec.violation("api", "result-name", case, want_name, v.name)
         return
@@ -284,19 +286,20 @@ def api_default_td(rec, seed):
 
     for zc_vals, zo_vals in (((0.5, 1.5, 3.5), (0.0, 1.0, 2.0, 5.0)), ((3.5, 1.5, 0.5), (5.0, 2.0, 1.0, 0.0))):
         for dims in (("x", "zc"), ("zc", "x"), ("x", "zc", "y")):
-            for mask in (True, False):
-                case = dict(level="api-default", zc=list(zc_vals), dims=list(dims), mask=mask)
+            for mask, carry in ((True, "own"), (False, "own"), (True, "none"), (False, "other")):
+                case = dict(level="api-default", zc=list(zc_vals), dims=list(dims), mask=mask, carry=carry)
                 ds = xr.Dataset(coords={"zc": ("zc", np.array(zc_vals)), "zo": ("zo", np.array(zo_vals)), "x": ("x", [0, 1])})
                 with warnings.catch_warnings():
                     warnings.simplefilter("ignore")
                     g = Grid(ds, coords={"Z": {"center": "zc", "outer": "zo"}}, periodic=False, autoparse_metadata=False)
                 phi = np.array([[1.0, 2.0, 4.0], [10.0, -20.0, 40.0]])
-                da = xr.DataArray(phi, dims=["x", "zc"], name="temp", coords={"zc": ds.zc})
+                # the data carries the dataset's coordinate, none, or other labels: the default target data is the Grid's
+                da = xr.DataArray(phi, dims=["x", "zc"], name="temp", coords={"zc": ds.zc} if carry == "own" else {"zc": ("zc", [10.0, 20.0, 30.0])} if carry == "other" else None)
                 if "y" in dims:
                     da = xr.concat([da, da * 3 - 1], dim="y")
                 da = da.transpose(*dims)
                 levels = (0.5, 1.0, 2.5, 3.5, 4.0)
-                rec.case(("api-default", zc_vals, dims, mask), True, sample=case)
+                rec.case(("api-default", zc_vals, dims, mask, carry), True, sample=case)
                 try:
                     with warnings.catch_warnings():
                         warnings.simplefilter("ignore")
@@ -398,4 +401,4 @@ def replay_case(case, seed, rec):
     else:
         rec.MAXVIOL = 10 ** 6
         api_default_td(rec, seed)
-        rec.viol = [v for v in rec.viol if {k: v["case"].get(k) for k in ("zc", "dims", "mask")} == {k: case.get(k) for k in ("zc", "dims", "mask")}][:1]
+        rec.viol = [v for v in rec.viol if {k: v["case"].get(k) for k in ("zc", "dims", "mask", "carry")} == {k: case.get(k, "own") for k in ("zc", "dims", "mask", "carry")}][:1]
